@@ -1139,8 +1139,27 @@ func vbRunHistory(out *vOut, id int, kind string, h []vbEv) {
 			for _, p := range e.Peers {
 				cfg.Peers[vbPeerName(p.Name)] = vbBuildPeer(p)
 			}
+			before, _ := sm.live()
 			if err := c.SetConfig(lg, cfg); err != nil {
 				panic(err)
+			}
+			// a peer whose configuration did not change keeps its session (no withdraw / re-offer of its routes)
+			for _, p := range e.Peers {
+				for _, q := range w.peers {
+					pb, _ := json.Marshal(p)
+					qb, _ := json.Marshal(q)
+					if string(pb) == string(qb) {
+						if s := before[vbPeerName(p.Name)]; s != nil {
+							out.Stat("unchanged_peer_kept_checks", 1)
+							if s.closed && !failed {
+								failed = true
+								out.Fail("bgp-session-recreated-for-unchanged-peer",
+									fmt.Sprintf("after event %d (cfg): the session of peer %d was closed although its configuration did not change", i, p.Name),
+									map[string]any{"history": h[:i+1]})
+							}
+						}
+					}
+				}
 			}
 			w.peers = e.Peers
 			out.Stat("op_cfg", 1)
